@@ -121,7 +121,27 @@ def c02_compile(tier):
         k["status"] = "fail"
         k["detail"] = "the items generated for `query me { n }` (library / CLI form, naming option none) do not type-check: %s" % res2[0][2].strip()
         k["witness"] = {"case": lc, "observed": k["detail"], "bounded": True, "how": "cargo check of /verif/.work/compile-crate-lc", "cases_tried": 1}
-    return [r, k]
+    # the same selection written twice in ONE selection set (GraphQL merges them; the generator emits one member per occurrence)
+    d = {"obligation": "C02.compile.duplicate_selection.bounded", "status": "ok", "bounded": True, "cases": 2, "trusted": [], "engine": r["engine"],
+         "what": "a field, or a fragment spread, that occurs twice in one selection set generates items that type-check", "bound": "two operations (`item { value value }`, `item { ...Info ...Info }`)",
+         "cmd": "lib/vxcompile.py (cargo check --offline in /verif/.work/compile-crate-dup)"}
+    dsch = "type Item { value: Int } type Query { item: Item }"
+    dups = [("dup_field", {"schema": dsch, "query": "query Q { item { value value } }", "options": {"mode": "cli"}}),
+            ("dup_spread", {"schema": dsch, "query": "fragment Info on Item { value } query Q { item { ...Info ...Info } }", "options": {"mode": "cli"}})]
+    try:
+        res3, err3 = build(dups, CRATE + "-dup")
+    except RuntimeError as e:
+        res3, err3 = [], str(e)
+    bad3 = [(lb, c, st) for (lb, c, st) in res3 if st not in ("ok", "nogen")]
+    if err3 or not res3:
+        d["status"] = "undecided"
+        d["detail"] = err3 or "no code was generated"
+    elif bad3:
+        lb, c, st = bad3[0]
+        d["status"] = "fail"
+        d["detail"] = "the items generated for `%s` do not type-check: %s" % (c["query"], st.strip())
+        d["witness"] = {"case": c, "observed": d["detail"], "failing_cases": len(bad3), "bounded": True, "how": "cargo check of /verif/.work/compile-crate-dup (module %s.rs)" % lb, "cases_tried": 2}
+    return [r, k, d]
 
 
 if __name__ == "__main__":
